@@ -192,6 +192,29 @@ func (e *specEnv) callExpr(n *ECall, hint types.Type) sv {
 		argn(1)
 		return sv{Val: Val{t: "(" + sym + " " + e.term(e.eval(n.Args[0], tInt), tInt) + ")", typ: tInt}}
 	}
+	if n.Fun == "callarg" {
+		// callarg(Name, k, i): i-th argument (0 = receiver for methods) of the k-th call (1-based) to a function named Name
+		if len(n.Args) != 3 || e.fr == nil {
+			sfail("callarg(Name, k, i) is only available in function contracts")
+		}
+		id, ok := n.Args[0].(*EIdent)
+		kk, ok2 := n.Args[1].(*EInt)
+		ii, ok3 := n.Args[2].(*EInt)
+		if !ok || !ok2 || !ok3 {
+			sfail("callarg(Name, k, i) needs a name and two literals")
+		}
+		var k, i int
+		fmt.Sscan(kk.Val, &k)
+		fmt.Sscan(ii.Val, &i)
+		calls := e.fr.callLog[id.Name]
+		if k < 1 || k > len(calls) {
+			sfail("callarg: function makes %d call(s) to %s, call %d requested", len(calls), id.Name, k)
+		}
+		if i < 0 || i >= len(calls[k-1]) {
+			sfail("callarg: call has %d argument(s)", len(calls[k-1]))
+		}
+		return sv{Val: calls[k-1][i]}
+	}
 	if n.Fun == "call" {
 		if len(n.Args) < 1 {
 			sfail("call(f, args...)")
